@@ -301,7 +301,7 @@ def solve(name, b, violation, witness, timeout_s, workdir, meta):
     t0 = time.time()
     r = b.decide(violation, workdir, name + "-viol", timeout_s)
     rec = dict(meta)
-    rec.update({"name": name, "steps": b.S, "cnf_vars": r.get("vars"), "cnf_clauses": r.get("clauses"), "solver_s": round(r.get("solver_s", 0.0), 2),
+    rec.update({"name": name, "steps": b.S, "cnf_vars": r.get("vars"), "cnf_clauses": r.get("clauses"), "solver_s": round(r.get("solver_s", 0.0), 2), "crosscheck_z3": r.get("crosscheck_z3"),
                 "encode_s": round(r.get("encode_s", 0.0), 2), "queries": 0, "witnesses": 0})
     if r["verdict"] == "unknown":
         rec.update(verdict="inconclusive", why=r.get("why", "solver gave no verdict")); return rec, None
